@@ -389,7 +389,8 @@ def cmd_driver(repo, shared_p, out):
             elif f["kind"] == "map":
                 o.append(f"    {f['name']}: gen_map(r, m, d),")
             else:
-                o.append(f"    {f['name']}: Gen::gen(r, m, d + 1),")
+                nm = f['name'].replace('r#', '')
+                o.append(f"    {f['name']}: Gen::gen_named(r, m, d + 1, \"{nm}\"),")
         o.append("} } }")
     for k in sorted(s["oneofs"]):
         vs = s["oneofs"][k]["variants"]
@@ -406,7 +407,7 @@ def cmd_driver(repo, shared_p, out):
         ref = "None"
         if k in deep:
             ref = f"Some(diff::<{rust_path(k)}, {ref_path(sh['shared'][k])}>)"
-        o.append(f"    TypeEntry {{ path: \"{k}\", run: check::<{rust_path(k)}>, diff: ref_or_none!({ref}) }},")
+        o.append(f"    TypeEntry {{ path: \"{k}\", run: check::<{rust_path(k)}>, recode: recode::<{rust_path(k)}>, diff: ref_or_none!({ref}) }},")
     o.append("] }")
     # enumerations: (value -> protobuf name) tables observed at run time
     o.append("pub fn all_enums() -> Vec<(&'static str, Vec<(i32, &'static str)>)> { vec![")
